@@ -490,7 +490,7 @@ func containsTerm(l []*smt.Term, t *smt.Term) bool {
 }
 
 func sameStr(a, b Str) bool {
-	return fmt.Sprintf("%p", a.Fn) == fmt.Sprintf("%p", b.Fn) && a.Off == b.Off && a.Len == b.Len
+	return a.Fn == b.Fn && a.Off == b.Off && a.Len == b.Len
 }
 
 func (e *Exec) strSlice(parts []Str) Value {
